@@ -67,6 +67,7 @@ type ContractSet struct {
 }
 
 var clauseHead = regexp.MustCompile(`^(requires|ensures|trusted-ensures|panics|raises|assume)\s*(\[[^\]]*\])?\s*([A-Za-z0-9_\-\.]+)\s*:\s*(.*)$`)
+var retGhostHead = regexp.MustCompile(`^atreturn\s+ghost\s+([A-Za-z_][A-Za-z0-9_]*)(\[(.*?)\])?\s*=\s*(.*)$`)
 var ghostSetHead = regexp.MustCompile(`^loop\s+(\d+)\s+ghost\s+([A-Za-z_][A-Za-z0-9_]*)\s*=\s*(.*)$`)
 var ghostUpdHead = regexp.MustCompile(`^loop\s+(\d+)\s+ghost\s+([A-Za-z_][A-Za-z0-9_]*)\[(.*?)\]\s*=\s*(.*)$`)
 var defineHead = regexp.MustCompile(`^define\s+([A-Za-z_][A-Za-z0-9_]*)\(([^)]*)\)\s*=\s*(.*)$`)
@@ -159,6 +160,26 @@ func parseContractFile(path string, cs *ContractSet) error {
 				return fmt.Errorf("%s:%d: %v", path, i+1, err)
 			}
 			cur.GhostUpd = append(cur.GhostUpd, &GhostUpd{Loop: n, Name: m[2], Idx: ie, Val: ve, Line: i + 1})
+			continue
+		}
+		if m := retGhostHead.FindStringSubmatch(t); m != nil {
+			if err := finish(); err != nil {
+				return err
+			}
+			gu := &GhostUpd{Loop: -1, Name: m[1], Line: i + 1}
+			if m[3] != "" {
+				ie, err := parseContractExpr(m[3])
+				if err != nil {
+					return fmt.Errorf("%s:%d: %v", path, i+1, err)
+				}
+				gu.Idx = ie
+			}
+			ve, err := parseContractExpr(m[4])
+			if err != nil {
+				return fmt.Errorf("%s:%d: %v", path, i+1, err)
+			}
+			gu.Val = ve
+			cur.GhostUpd = append(cur.GhostUpd, gu)
 			continue
 		}
 		if m := ghostSetHead.FindStringSubmatch(t); m != nil {
